@@ -39,13 +39,15 @@ CHECKS = {
                 technique="TLC model checking of Split.tla (ImplSplit = PropSplit on wrapped words) + TLC-generated scenarios replayed with the okkhor parser as transliteration oracle",
                 text="TLC enumerates every class string to length 6/7 (wrapped words), 4/5 (arbitrary class strings) and every string over the 94 typeable characters to "
                      "length 2/3, checks the split on the model and emits one scenario per string; the harness concretises, types the text through key events and "
-                     "compares with okkhor(P)+okkhor(W)+okkhor(Q): equality with suggestions off, membership (modulo curling) with suggestions on under 3 option sets",
+                     "compares with okkhor(P)+okkhor(W)+okkhor(Q): equality with suggestions off, membership (modulo curling) with suggestions on under 3 option sets; a fourth instance ('punctruns') enumerates every run of "
+                     "punctuation / symbol characters around at most one letter or digit to length 3/4 and runs of one repeated character to length 8 (the multi-character Avro patterns made of punctuation)",
                 note="transliteration itself is the okkhor public parser (oracle by definition); contexts with suggestions on are pooled and a mismatch is confirmed on brand-new contexts"),
     "C04": dict(category=MC, design_ref="DESIGN.md 5 C04",
                 technique="TLC exhaustive enumeration of Layout.Expected over the complete key space + exhaustive comparison of the real engine against the emitted table",
                 text="the space 65536 codes x 11 modifier patterns x numpad x 2 layouts is finite and enumerated completely on both sides: TLC (2.9M states) "
                      "checks the statement's consequences on Layout.Expected and emits the table; the harness presses every point on the real engine and "
-                     "compares text, emptiness and session flag (exhaustive: true); a hidden-state probe and recorded sessions validated by Trace_Session (focus C04) check that an inert event also leaves no trace in what follows",
+                     "compares text, emptiness and session flag (exhaustive: true); a hidden-state probe and recorded sessions validated by Trace_Session (focus C04) check that an inert event also leaves no trace in what follows; the table is also checked on contexts created with the other "
+                     "number-pad setting (same / other layout file) and re-configured while idle, and inside a word: every key twice in a row under every pair of modifier patterns",
                 note="key-name -> layout-entry naming convention (bin/gen.py) transcribed from riti.h names; two layout files; TLC JSON modules, harness executor trusted"),
     "C07": dict(category=MC, design_ref="DESIGN.md 5 C07",
                 technique="TLC trace validation of recorded candidate lists against Candidates.tla (PropOrderPhonetic) with facts from independent oracles",
@@ -76,7 +78,8 @@ CHECKS = {
                 technique="TLC model checking of UpdatedEquivFresh on the memo/stamp model + paired replay: updated context vs context created fresh at the update point",
                 text="TLC enumerates typing / auto-correct-file edits / update-engine / typing histories over 4 (quick) or 7 (thorough) configurations, checks the invariant on "
                      "the model (it finds the stale-memo counterexample on the pinned transcript in 4 steps) and emits every maximal history; the harness replays each with "
-                     "explicit file mtimes against a brand-new context created with the new configuration over the same files; edits add / change / remove entries, make the file unparsable or delete it; a second instance performs two updates in a row (incl. suggestions switched off and on again); MC_Session histories add updates in the middle of arbitrary event sequences",
+                     "explicit file mtimes against a brand-new context created with the new configuration over the same files; edits add / change / remove entries, make the file unparsable or delete it; a second instance performs two updates in a row (incl. suggestions switched off and on again); MC_Session histories add updates in the middle of arbitrary event sequences; recorded sessions with update-engine calls to random configurations and directed single-option flips (every helper option, number pad, "
+                     "suggestion switch, both directions) are validated by Trace_Session with Focus=C11: after an update every configuration-dependent conjunct is enforced against the new configuration",
                 note="edits = content change, damage or deletion with newer mtime; bounded number of edits/words; TLC, harness executor trusted"),
     "C12": dict(category=MC, design_ref="DESIGN.md 5 C12",
                 technique="TLC bounded model checking of FixedCompose (PropKeySet) + replay of every TLC behaviour through the real engine",
@@ -87,7 +90,7 @@ CHECKS = {
     "C13": dict(category=MC, design_ref="DESIGN.md 5 C13",
                 technique="TLC bounded model checking of ImplReph against PropRephSet (syllable grammar) + replay of every reph-ending history through the real engine",
                 text="TLC enumerates all histories ending in the reph key to depth 5 (quick) / 6 (thorough) over the 12 values the reph scan distinguishes x 16 settings, and to depth 4 / 5 over a class sweep "
-                     "(all ten vowel signs, anusvara, visarga, khanda-ta, digit: 25 values), "
+                     "(all ten vowel signs, anusvara, visarga, khanda-ta, digit: 25 values) and to depth 4 over every one of the 36 consonants, "
                      "checks conservation for every reachable text and exact placement for every text matching the syllable grammar; every history ending in "
                      "the reph key is replayed in the real engine and the pre-edit text compared after each event; the ranges include the old vowel-sign order (sign waiting / sign placed before the reph arrives)",
                 note="placement clause only for grammar-matching texts (statement: 'orthographically well-formed'); bounded depth; TLC, harness executor, rustc trusted"),
@@ -95,18 +98,18 @@ CHECKS = {
                 technique="TLC product-machine model checking (typewriter order/option on vs Unicode order/option off) + paired replay of every generated word in two real contexts",
                 text="TLC builds every word of <= 2 syllables from the syllable grammar (9 onsets quick / 16 thorough, all ten vowel signs, both second halves of AU, "
                      "chandrabindu, independent vowel, punctuation, digit) x 16 helper settings and checks OldOrderEquiv and the waiting-sign clauses on the transcript; "
-                     "each word is typed both ways into two real contexts and the texts compared after every syllable, plus the waiting-sign clauses on the real engine (end of a word, start of a word, brand-new context)",
+                     "each word is typed both ways into two real contexts and the texts compared after every syllable, plus the waiting-sign clauses on the real engine (end of a word, start of a word, brand-new context); a consonant sweep puts every one of the 36 consonants alone and inside a conjunct as second syllable",
                 note="only grammar-generated words (behaviour on ill-formed key sequences is descriptive); bounded word length; TLC, harness executor trusted"),
     "C15": dict(category=MC, design_ref="DESIGN.md 5 C15",
                 technique="TLC trace validation of recorded fixed-layout lists against Candidates.tla (PropFixedList) with dictionary facts",
                 text="prefixes (up to 6/12 characters) of 1/97 (quick) or all (thorough) dictionary words, every Bengali emoji name and every emoticon are typed through the inverse of the "
                      "bundled layout, wrapped or not, under 6 option sets; TLC checks: first = composed text with curling (split decided by Split.tla), completions are dictionary words "
-                     "with the typed prefix, non-decreasing distance, at most nine, no repeats, raw key text last when English is on. MC_FixedList model-checks the list assembly (consecutive-only de-duplication, comparator, stable sort, cut) against the same clauses; the data facts it assumes are checked on the real dictionary (event dictfacts); every prefix of every duplicated dictionary entry is always typed",
+                     "with the typed prefix, non-decreasing distance, at most nine, no repeats, raw key text last when English is on. MC_FixedList model-checks the list assembly (consecutive-only de-duplication, comparator, stable sort, cut) against the same clauses; the data facts it assumes are checked on the real dictionary (event dictfacts); every prefix of every duplicated dictionary entry and of every dictionary word containing a non-Bengali character is always typed, and every ASCII punctuation key of the layout inside dictionary prefixes",
                 note="dictionary facts and edit distance are oracle facts; cleaning = removing ASCII punctuation, danda, ZWNJ"),
     "C16": dict(category=MC, design_ref="DESIGN.md 5 C16",
                 technique="TLC trace validation (PropAnsi / FPropAnsi / Enc) of recorded lists in both methods + data-exhaustive encoding pass over dictionary.json",
                 text="every recorded phonetic and fixed list (C07/C15 corpora, ANSI on and off) is checked for the gate (no emoji / emoticon / raw English in ANSI mode) and for the pre-edit "
-                     "relation (Bijoy encoding without Bengali code points / identity); every (4th) dictionary word, candidates of auto-correct key + suffix words and every layout value "
+                     "relation (Bijoy encoding without Bengali code points / identity; on every other text of the ANSI configurations the recorder passes another valid selection byte than the preselected one); every (4th) dictionary word, candidates of auto-correct key + suffix words and every layout value "
                      "go through the real pre-edit accessor in ANSI mode; MC_Candidates checks AnsiGate on the assembly model. Known finding F18 (dependency panics on U+09C4) is accepted explicitly for exactly those code points",
                 note="the encoding itself is poriborton's public function (oracle named by the statement); emoji-ness from the emojicon tables"),
     "C17": dict(category=MC, design_ref="DESIGN.md 5 C17",
@@ -127,6 +130,6 @@ CHECKS = {
                      "cycles; each is executed through the extern C symbols with string validity / equality / snapshot-independence checks, and a sample of several hundred (thousand) "
                      "sequences is re-executed under valgrind memcheck, which decides 'no invalid access, no leak'; a fatal signal in the natively executed sequences (double free abort, wild access) is "
                      "reported as a violation with the call sequence as replay file. Claimed as exploration, not model checking: the memory verdict is outside TLA+",
-                note="valgrind memcheck is the memory oracle; exported symbols linked from the rlib; in-contract = live handles, in-range indices, variant-appropriate accessors"),
+                note="valgrind memcheck is the memory oracle; exported symbols linked from the rlib, the context is an opaque pointer (its Rust type is never named by the harness); in-contract = live handles, in-range indices, variant-appropriate accessors"),
 }
 NOT_APPLICABLE = {}
